@@ -8,12 +8,11 @@
 
    Abstracted: floating point rounding (the model computes the real-number value); dtype
    checks of the constructor (the wire only carries floats / ints / strings); h5py is the
-   identity on arrays; np.char.encode / decode (UTF-8) is the identity on non-empty string
-   arrays, and np.char.encode of an EMPTY string array is numpy's float64 empty array, on
-   which np.char.decode raises TypeError (observed on numpy 1.26: an evaluation with zero
-   experiments saves but does not load).
+   identity on arrays (shape included: a (0, m) matrix comes back as (0, m));
+   batchie.data.encode_string_array / decode_string_array (UTF-8, shape-preserving also for an
+   array without elements) is the identity on string arrays.
 
-   Error tags: 1 ValueError, 2 TypeError, 6 the value is NaN (mean / variance of an empty
+   Error tags: 1 ValueError, 6 the value is NaN (mean / variance of an empty
    array, 0/0). *)
 From Coq Require Import ZArith List QArith Qcanon.
 From Batchie Require Import Lib.Sexp Lib.Num.
@@ -21,7 +20,6 @@ Import ListNotations.
 Open Scope Qc_scope.
 
 Definition E_VALUE : Z := 1%Z.
-Definition E_TYPE : Z := 2%Z.
 Definition E_NAN : Z := 6%Z.
 
 (* np.var(x) = mean(abs(x - x.mean()) ** 2): population variance, ddof = 0 *)
@@ -89,21 +87,17 @@ Definition ev_mean_predictions (e : evaluation) : result (list Qc) :=
   if negb (Nat.eqb (n_exp e) 0) && Nat.eqb (n_thetas e) 0 then Err E_NAN
   else Ok (map qmean (ev_preds e)).
 
-(* save_h5: four datasets; the names dataset is None when np.char.encode was applied to an
-   empty array (float64 result) *)
+(* save_h5: four datasets; load_h5 reads them back and calls the constructor, whose
+   predictions.shape[1] is the stored one (= the number of chain ids of a constructed evaluation) *)
 Definition eval_file : Type :=
-  (list (list Qc) * list Qc * list Z * option (list (list Z)))%type.
+  (list (list Qc) * list Qc * list Z * list (list Z))%type.
 
 Definition ev_save (e : evaluation) : eval_file :=
-  (ev_preds e, ev_obs e, ev_chains e,
-   match ev_names e with [] => None | _ => Some (ev_names e) end).
+  (ev_preds e, ev_obs e, ev_chains e, ev_names e).
 
 Definition ev_load (f : eval_file) : result evaluation :=
   let '(preds, obs, chains, names) := f in
-  match names with
-  | None => Err E_TYPE
-  | Some names => mk_eval (length chains) preds obs chains names
-  end.
+  mk_eval (length chains) preds obs chains names.
 
 (* predict_viability_avg: result = zeros(size); for theta: result = result + sub; result / n_thetas.
    [per_theta] has one row per theta (the transposed orientation of ModelEvaluation). *)
